@@ -185,7 +185,7 @@ func runC14(r *Report) {
 				if c.paired {
 					continue
 				}
-				if c.s.Block == ss.Block || c.s.Block.Dominates(ss.Block) || ss.Block.Dominates(c.s.Block) {
+				if c.s.Block == ss.Block || dominates(c.s.Block, ss.Block) || dominates(ss.Block, c.s.Block) {
 					if m == nil || absInt(c.s.Block.Index-ss.Block.Index) < absInt(m.s.Block.Index-ss.Block.Index) {
 						m = c
 					}
@@ -234,7 +234,7 @@ func runC14(r *Report) {
 				// was it reported as part of a failed store above? only report if no size store relates
 				rel := false
 				for _, ss := range sizeStores {
-					if ss.Block == m.s.Block || ss.Block.Dominates(m.s.Block) || m.s.Block.Dominates(ss.Block) {
+					if ss.Block == m.s.Block || dominates(ss.Block, m.s.Block) || dominates(m.s.Block, ss.Block) {
 						rel = true
 					}
 				}
